@@ -55,6 +55,40 @@ def cmpBytes : List Nat → List Nat → Ordering
   | _ :: _, [] => .gt
   | a :: as, b :: bs => if a < b then .lt else if b < a then .gt else cmpBytes as bs
 
+/-! ### `Display`: what `Formatter::pad` does with a `str` (precision = maximal number of chars,
+width = minimal number of chars, padded with the fill character on the side(s) the alignment says;
+strings are left-aligned by default) -/
+
+/-- number of chars (scalar values) of a valid UTF-8 byte string: bytes that are not continuation bytes -/
+def charCount (bs : List Nat) : Nat := (bs.filter fun b => !isCont b).length
+
+/-- the longest prefix with at most `p` chars -/
+def takeChars : Nat → List Nat → List Nat
+  | _, [] => []
+  | p, b :: t =>
+    if isCont b then b :: takeChars p t            -- continuation byte of a char already counted
+    else match p with
+      | 0 => []
+      | p + 1 => b :: takeChars p t
+
+inductive Align where | left | right | center
+deriving DecidableEq, Repr
+
+/-- `f.pad(s)` with optional width and precision, fill byte `fill` (an ASCII character) -/
+def fmtPad (bs : List Nat) (width prec : Option Nat) (align : Align) (fill : Nat) : List Nat :=
+  let s := match prec with | none => bs | some p => takeChars p bs
+  match width with
+  | none => s
+  | some w =>
+    let n := charCount s
+    if w ≤ n then s
+    else
+      let pad := w - n
+      match align with
+      | .left => s ++ List.replicate pad fill
+      | .right => List.replicate pad fill ++ s
+      | .center => List.replicate (pad / 2) fill ++ s ++ List.replicate ((pad + 1) / 2) fill
+
 end ActixNet.Utf8
 
 namespace ActixNet.ByteString
